@@ -40,6 +40,28 @@ CHECKS = {
         note="Operands are built with the trusted normal-form constructors; sampling is dense at sign/day/tick/range edges but not exhaustive; floats checked to 2^-50 relative to the larger intermediate.",
         technique="TLA+ integer semantics (BigInt/T3) + scaled normal-form model in TLC + TLC trace validation of recorded calls",
     ),
+    "C04": dict(
+        category="model_checking",
+        text=("ZoneTimeline.tla states the partition laws; ZoneWalk.tla models the walk and the implementation-shaped lookup "
+              "(binary search over precalculated periods handing over to a periodic tail with a clamped first interval) and TLC "
+              "checks lookup = declarative partition and that the walk covers the line for all small zones; every tzdb id and "
+              "fixed-offset zones are walked through the real API and TLC validates every interval (abutting, maximal, contains "
+              "the instant asked for, wall = standard + savings, within min/max, ends at the end of time) plus in-interval probes."),
+        design_ref="DESIGN.md section 5 C04",
+        note="Quick tier walks 12 zones (by seed) to year 9999 and the rest to 2100 plus 9989-9999; thorough walks all ~1.8M intervals.",
+        technique="TLA+ zone partition/walk model checked by TLC + TLC trace validation of interval walks of every real zone",
+    ),
+    "C05": dict(
+        category="model_checking",
+        text=("ZoneLocalMapping.tla gives the declarative meaning of map_local (the set of instants whose local rendering is the value) "
+              "and a transcription of the guess-and-probe algorithm with its day-granular pre-checks; TLC proves them equal on all small "
+              "zones with jumps up to a whole day; on real zones, local times at nanosecond/second/gap/day distances around every "
+              "transition are mapped and TLC recomputes the pre-image set from the logged interval window, checking count, early/late, "
+              "first/last/single, strict and lenient resolvers and the reverse rendering."),
+        design_ref="DESIGN.md section 5 C05",
+        note="Quick tier: 62 zones x transitions 1900-2040 (max 40 per zone) + oddest zones from the start of time + range-end windows; at_start_of_day not yet covered.",
+        technique="TLA+ declarative-vs-algorithm model checked by TLC + TLC trace validation of map_local around every transition",
+    ),
     "C14": dict(
         category="model_checking",
         text=("NzdCodec.tla specifies every documented encoding (varint, zig-zag, 4-way milliseconds with its canonical choice, "
